@@ -55,6 +55,8 @@ def parse_json_pairs(text):
 def to_neutral_from_pairs(x):
     if isinstance(x, dict) and x.get("j") == "o":
         return x
+    if isinstance(x, dict) and x.get("__empty__"):
+        return {"j": "o", "kv": []}
     if isinstance(x, bool):
         return {"j": "b", "b": x}
     if isinstance(x, int):
@@ -108,7 +110,7 @@ def run_case(case, scratch, want, recorder=None, enum_as_member=True):
                     case.event_src.append(vi)
                     dct = obj.to_dict()
                     ev.append({"ev": "Json", "v": gen.sm_tree(t, v),
-                               "tree": to_neutral_from_pairs(parse_json_pairs(json.dumps(dct)))})
+                               "tree": to_neutral_from_pairs(parse_json_pairs(json.dumps(dct, default=list)))})
                     case.event_src.append(vi)
                 except Exception as exc:
                     raise_event(exc, "json", vi)
